@@ -183,16 +183,22 @@ Theorem C19_strip_of_coloured_pretty_is_plain_pretty : forall w st m, no_esc_msg
 Proof. exact strip_pretty. Qed.
 Print Assumptions C19_strip_of_coloured_pretty_is_plain_pretty.
 
-(* ---- install / restore, for ALL histories of Install | Restore | foreign calls ---- *)
+(* ---- install / restore, for ALL histories of Install k | Restore | foreign calls | Create k |
+   Destroy k: several Logger objects (0 = the singleton, others made with the public constructor)
+   that come and go; Logger = the one static Logger::messageHandler all of them install ---- *)
 (* (a) when the logger's handler is current, Restore leaves the handler that was current just before
-   the logger last took over from a non-logger handler (read off the observable trace) *)
+   the logger's handler last took over from a non-logger handler (read off the observable trace) -
+   whichever logger objects installed it and whether or not they still exist - and that handler
+   receives the messages emitted afterwards *)
 Theorem C19_restore_reinstates : forall ops, cur (irun src_inst ops) = Logger ->
-  exists p, last_takeover Default (itrace src_inst ops) None = Some p /\ p <> Logger
-            /\ cur (istep src_inst (irun src_inst ops) Restore) = p.
+  exists p, last_takeover Default (map fst (itrace src_inst ops)) None = Some p /\ p <> Logger
+            /\ cur (istep src_inst (irun src_inst ops) Restore) = p
+            /\ receiver (istep src_inst (irun src_inst ops) Restore) = recv_of p.
 Proof.
   exact (eq_ind_r (fun src => forall ops, cur (irun src ops) = Logger ->
-                     exists p, last_takeover Default (itrace src ops) None = Some p /\ p <> Logger
-                               /\ cur (istep src (irun src ops) Restore) = p)
+                     exists p, last_takeover Default (map fst (itrace src ops)) None = Some p /\ p <> Logger
+                               /\ cur (istep src (irun src ops) Restore) = p
+                               /\ receiver (istep src (irun src ops) Restore) = recv_of p)
            restore_reinstates C19_source_install_is_documented).
 Qed.
 Print Assumptions C19_restore_reinstates.
@@ -205,24 +211,63 @@ Proof.
            restore_leaves_other C19_source_install_is_documented).
 Qed.
 Print Assumptions C19_restore_leaves_newer_foreign_handler.
-(* repeated Install never saves the logger's own handler, and whenever the logger's handler is
-   current there is a handler to reinstate *)
+(* object lifetime, stated directly: from ANY state in which a non-logger handler h is current, let
+   Logger objects be created, installed (any of them, any number of times) and destroyed in any
+   order; if the logger's handler is current afterwards, Restore reinstates h and h receives the
+   messages - in particular after the installing logger is gone *)
+Theorem C19_restore_reinstates_whatever_the_logger_lifetimes : forall s mid,
+  cur s <> Logger -> forallb logger_op mid = true ->
+  cur (fold_left (istep src_inst) mid s) = Logger ->
+  cur (istep src_inst (fold_left (istep src_inst) mid s) Restore) = cur s
+  /\ receiver (istep src_inst (fold_left (istep src_inst) mid s) Restore) = recv_of (cur s).
+Proof.
+  exact (eq_ind_r (fun src => forall s mid, cur s <> Logger -> forallb logger_op mid = true ->
+                     cur (fold_left (istep src) mid s) = Logger ->
+                     cur (istep src (fold_left (istep src) mid s) Restore) = cur s
+                     /\ receiver (istep src (fold_left (istep src) mid s) Restore) = recv_of (cur s))
+           lifetime_restore C19_source_install_is_documented).
+Qed.
+Print Assumptions C19_restore_reinstates_whatever_the_logger_lifetimes.
+(* a Logger object going away changes neither Qt's current handler nor the handler to reinstate *)
+Theorem C19_destroying_a_logger_keeps_both_handlers : forall s k,
+  cur (istep src_inst s (Destroy k)) = cur s /\ saved (istep src_inst s (Destroy k)) = saved s.
+Proof.
+  exact (eq_ind_r (fun src => forall s k, cur (istep src s (Destroy k)) = cur s /\ saved (istep src s (Destroy k)) = saved s)
+           destroy_keeps_handlers C19_source_install_is_documented).
+Qed.
+Print Assumptions C19_destroying_a_logger_keeps_both_handlers.
+(* repeated Install never saves the logger's own handler; whenever the logger's handler is current
+   there is a handler to reinstate; the logger the static handler forwards to always exists *)
 Theorem C19_install_never_saves_own_handler : forall ops,
-  saved (irun src_inst ops) <> Some Logger /\ (cur (irun src_inst ops) = Logger -> saved (irun src_inst ops) <> None).
+  saved (irun src_inst ops) <> Some Logger /\ (cur (irun src_inst ops) = Logger -> saved (irun src_inst ops) <> None)
+  /\ (forall k, active (irun src_inst ops) = Some k -> memb k (alive (irun src_inst ops)) = true).
 Proof.
   exact (eq_ind_r (fun src => forall ops, saved (irun src ops) <> Some Logger
-                                           /\ (cur (irun src ops) = Logger -> saved (irun src ops) <> None))
+                                           /\ (cur (irun src ops) = Logger -> saved (irun src ops) <> None)
+                                           /\ (forall k, active (irun src ops) = Some k -> memb k (alive (irun src ops)) = true))
            run_inv C19_source_install_is_documented).
 Qed.
 Print Assumptions C19_install_never_saves_own_handler.
-Theorem C19_install_twice_is_install_once : forall s,
-  istep src_inst (istep src_inst s Install) Install = istep src_inst s Install.
+Theorem C19_install_twice_is_install_once : forall s k,
+  istep src_inst (istep src_inst s (Install k)) (Install k) = istep src_inst s (Install k).
 Proof.
-  exact (eq_ind_r (fun src => forall s, istep src (istep src s Install) Install = istep src s Install)
-           (install_twice : forall s, istep doc_inst (istep doc_inst s Install) Install = istep doc_inst s Install)
+  exact (eq_ind_r (fun src => forall s k, istep src (istep src s (Install k)) (Install k) = istep src s (Install k))
+           (install_twice : forall s k, istep doc_inst (istep doc_inst s (Install k)) (Install k) = istep doc_inst s (Install k))
            C19_source_install_is_documented).
 Qed.
 Print Assumptions C19_install_twice_is_install_once.
+(* an install by ANOTHER logger object keeps the handler to reinstate, and makes that logger the receiver *)
+Theorem C19_install_by_another_logger : forall s j k, memb j (alive s) = true ->
+  saved (istep src_inst (istep src_inst s (Install j)) (Install k)) = saved (istep src_inst s (Install j))
+  /\ receiver (istep src_inst s (Install j)) = RLogger j.
+Proof.
+  exact (eq_ind_r (fun src => forall s j k, memb j (alive s) = true ->
+                     saved (istep src (istep src s (Install j)) (Install k)) = saved (istep src s (Install j))
+                     /\ receiver (istep src s (Install j)) = RLogger j)
+           (fun s j k H => conj (install_other_keeps_saved s j k H) (install_receives s j H))
+           C19_source_install_is_documented).
+Qed.
+Print Assumptions C19_install_by_another_logger.
 Theorem C19_restore_idempotent : forall s,
   istep src_inst (istep src_inst s Restore) Restore = istep src_inst s Restore.
 Proof.
@@ -231,16 +276,28 @@ Proof.
            C19_source_install_is_documented).
 Qed.
 Print Assumptions C19_restore_idempotent.
-(* "however often install was called": after any history, n+1 installs and one restore give back the
-   handler that was active before the logger was installed *)
-Theorem C19_install_n_restore : forall ops n, cur (irun src_inst ops) <> Logger ->
-  cur (irun src_inst (ops ++ repeat Install (S n) ++ [Restore])) = cur (irun src_inst ops).
+(* "however often install was called": after any history, n+1 installs by an existing logger and one
+   restore give back the handler that was active before the logger was installed *)
+Theorem C19_install_n_restore : forall ops k n, cur (irun src_inst ops) <> Logger ->
+  memb k (alive (irun src_inst ops)) = true ->
+  cur (irun src_inst (ops ++ repeat (Install k) (S n) ++ [Restore])) = cur (irun src_inst ops).
 Proof.
-  exact (eq_ind_r (fun src => forall ops n, cur (irun src ops) <> Logger ->
-                     cur (irun src (ops ++ repeat Install (S n) ++ [Restore])) = cur (irun src ops))
+  exact (eq_ind_r (fun src => forall ops k n, cur (irun src ops) <> Logger -> memb k (alive (irun src ops)) = true ->
+                     cur (irun src (ops ++ repeat (Install k) (S n) ++ [Restore])) = cur (irun src ops))
            install_n_restore C19_source_install_is_documented).
 Qed.
 Print Assumptions C19_install_n_restore.
+(* what today's code does BETWEEN the destruction of the active logger and the next restore / install
+   (the property is silent here; recorded so that the model's prediction is explicit): the logger's
+   handler stays current and the messages reach nobody *)
+Theorem C19_destroyed_active_logger_swallows_until_restore : forall s k, memb k (alive s) = true ->
+  receiver (istep src_inst (istep src_inst s (Install k)) (Destroy k)) = RNone.
+Proof.
+  exact (eq_ind_r (fun src => forall s k, memb k (alive s) = true ->
+                     receiver (istep src (istep src s (Install k)) (Destroy k)) = RNone)
+           destroy_active_swallows C19_source_install_is_documented).
+Qed.
+Print Assumptions C19_destroyed_active_logger_swallows_until_restore.
 Theorem C19_install_oracle_holds : forall ops, prop_install_b ops (itrace src_inst ops) = true.
 Proof.
   exact (eq_ind_r (fun src => forall ops, prop_install_b ops (itrace src ops) = true)
@@ -248,9 +305,74 @@ Proof.
 Qed.
 Print Assumptions C19_install_oracle_holds.
 
+(* ---- the file options (startup / daily / count) speak about FILES: which file holds which line.
+   npre lines last modified on day d0 are found at start; days = the days of the records that reach
+   the file (C19_ini_configured_output_exactly_once: one per passing message, in order) ---- *)
+(* each front-end builds exactly one file sink, with these parameters *)
+Theorem C19_file_sink_built : forall a s,
+  (emptyb (o_path a) = false -> filter is_file (build_oneline src_oneline a) = [HFile (ol_fparams src_oneline a)])
+  /\ (emptyb (k_path s) = false -> filter is_file (build_ini src_ini s) = [HFile (ini_fparams src_ini s)]).
+Proof.
+  exact (eq_ind_r (fun src1 => forall a s,
+            (emptyb (o_path a) = false -> filter is_file (build_oneline src1 a) = [HFile (ol_fparams src1 a)])
+            /\ (emptyb (k_path s) = false -> filter is_file (build_ini src_ini s) = [HFile (ini_fparams src_ini s)]))
+          (eq_ind_r (fun src2 => forall a s,
+            (emptyb (o_path a) = false -> filter is_file (build_oneline doc_oneline a) = [HFile (ol_fparams doc_oneline a)])
+            /\ (emptyb (k_path s) = false -> filter is_file (build_ini src2 s) = [HFile (ini_fparams src2 s)]))
+            (fun a s => conj (oneline_file_sink a) (ini_file_sink s)) C19_source_ini_is_documented)
+          C19_source_oneline_is_documented).
+Qed.
+Print Assumptions C19_file_sink_built.
+(* and its file layout is what the ARGUMENTS / KEYS say, for every old content and every stream *)
+Theorem C19_oneline_files_are_what_the_arguments_say : forall a npre d0 days,
+  prop_layout_b (ol_want a) npre d0 days (lay_obs (layout (ol_fparams src_oneline a) npre d0 days)) = true.
+Proof.
+  exact (eq_ind_r (fun src => forall a npre d0 days,
+                     prop_layout_b (ol_want a) npre d0 days (lay_obs (layout (ol_fparams src a) npre d0 days)) = true)
+           oneline_layout_ok C19_source_oneline_is_documented).
+Qed.
+Print Assumptions C19_oneline_files_are_what_the_arguments_say.
+Theorem C19_ini_files_are_what_the_keys_say : forall s npre d0 days,
+  prop_layout_b (ini_want s) npre d0 days (lay_obs (layout (ini_fparams src_ini s) npre d0 days)) = true.
+Proof.
+  exact (eq_ind_r (fun src => forall s npre d0 days,
+                     prop_layout_b (ini_want s) npre d0 days (lay_obs (layout (ini_fparams src s) npre d0 days)) = true)
+           ini_layout_ok C19_source_ini_is_documented).
+Qed.
+Print Assumptions C19_ini_files_are_what_the_keys_say.
+(* in the property's own words, for the one-line front-end: with RotationDaily (and nothing else),
+   lines written on an earlier day are moved out to <base>.<that day>.1.<suffix> as soon as a message
+   of another day is logged *)
+Theorem C19_oneline_daily_rotates_old_lines_out : forall a npre d0 d r,
+  o_daily a = true -> o_count a <> 1%Z -> (0 < npre)%nat -> d <> d0 ->
+  hd_error (fl_rot (layout (ol_fparams src_oneline a) npre d0 (d :: r))) = Some (d0, 1%nat, repeat d0 npre).
+Proof.
+  exact (eq_ind_r (fun src => forall a npre d0 d r, o_daily a = true -> o_count a <> 1%Z -> (0 < npre)%nat -> d <> d0 ->
+                     hd_error (fl_rot (layout (ol_fparams src a) npre d0 (d :: r))) = Some (d0, 1%nat, repeat d0 npre))
+           (fun a npre d0 d r Hd Hc Hn Hne =>
+              old_lines_rotated_out (ol_fparams doc_oneline a) npre d0 d r
+                (eq_trans (f_equal (fun b => (0 <? o_size a)%Z || o_startup a || b) Hd) (orb_true_r _))
+                Hc Hn (or_intror (conj Hd Hne)))
+           C19_source_oneline_is_documented).
+Qed.
+Print Assumptions C19_oneline_daily_rotates_old_lines_out.
+(* every file holds the lines of one day, rotated files are named after it; nothing is lost *)
+Theorem C19_daily_files_hold_one_day_each : forall f npre d0 days,
+  f_rotating f = true -> f_daily f = true -> f_count f <> 1%Z ->
+  let s := layout f npre d0 days in
+  forallb (fun r : rfile => single_day (fst (fst r)) (snd r)) (fl_rot s) = true
+  /\ forallb (N.eqb (fl_date s)) (fl_active s) = true
+  /\ List.concat (map snd (fl_rot s)) ++ fl_active s = repeat d0 npre ++ days.
+Proof.
+  exact (fun f npre d0 days Hr Hd Hc =>
+           conj (proj1 (layout_D f npre d0 days Hr Hd Hc))
+                (conj (proj2 (layout_D f npre d0 days Hr Hd Hc)) (layout_L f npre d0 days))).
+Qed.
+Print Assumptions C19_daily_files_hold_one_day_each.
+
 (* ---- non-vacuity ---- *)
 Definition ex_msg (t : mtype) (cat text : string) : msg :=
-  {| m_type := t; m_cat := qs cat; m_text := qs text; m_tid := 0; m_time := qs "14.11.2023 22:13:20" |}.
+  {| m_type := t; m_cat := qs cat; m_text := qs text; m_tid := 0; m_time := qs "14.11.2023 22:13:20"; m_day := 19675 |}.
 Definition ex_ini : ini := {|
   k_rules := [{| r_name := qs "net"; r_wild := false; r_type := Some Debug; r_enabled := false |}];
   k_regexp := None; k_pattern := [PLit (qs "["); PCategory; PLit (qs "] "); PMessage];
@@ -278,10 +400,38 @@ Example C19_nonvacuous_strip :
   strip_sgr (qs "a" ++ esc_seq "1;31" ++ qs "b" ++ [ESC; LBR; 51] ++ qs "c" ++ esc_seq "" ++ [ESC])
   = qs "ab" ++ [ESC; LBR; 51] ++ qs "c" ++ [ESC].
 Proof. vm_compute. reflexivity. Qed.
-(* F1 I F2 I R yields F2; F1 I I R yields F1; F1 I F2 R leaves F2 *)
+(* F1 I F2 I R yields F2; F1 I I R yields F1; F1 I F2 R leaves F2 (I = the singleton, logger 0) *)
 Example C19_nonvacuous_install :
-  itrace src_inst [ForeignInstall 1; Install; ForeignInstall 2; Install; Restore; Restore;
-                   ForeignInstall 1; Install; Install; Restore; Install; ForeignInstall 2; Restore]
+  map fst (itrace src_inst [ForeignInstall 1; Install 0; ForeignInstall 2; Install 0; Restore; Restore;
+                            ForeignInstall 1; Install 0; Install 0; Restore; Install 0; ForeignInstall 2; Restore])
   = [Foreign 1; Logger; Foreign 2; Logger; Foreign 2; Foreign 2;
      Foreign 1; Logger; Logger; Foreign 1; Logger; Foreign 2; Foreign 2].
 Proof. vm_compute. reflexivity. Qed.
+(* F1; a stack logger 1 is created, installed twice and destroyed: the messages reach nobody; the
+   static restore reinstates F1, which receives again.  Then two loggers: the second install moves the
+   messages to logger 2; destroying logger 2 silences them although logger 1 exists; restore -> F1 *)
+Example C19_nonvacuous_lifetime :
+  itrace src_inst [ForeignInstall 1; Create 1; Install 1; Install 1; Destroy 1; Restore;
+                   Create 1; Create 2; Install 1; Install 2; Destroy 2; Install 0; Destroy 1; Restore]
+  = [(Foreign 1, RForeign 1); (Foreign 1, RForeign 1); (Logger, RLogger 1); (Logger, RLogger 1);
+     (Logger, RNone); (Foreign 1, RForeign 1);
+     (Foreign 1, RForeign 1); (Foreign 1, RForeign 1); (Logger, RLogger 1); (Logger, RLogger 2);
+     (Logger, RNone); (Logger, RLogger 0); (Logger, RLogger 0); (Foreign 1, RForeign 1)].
+Proof. vm_compute. reflexivity. Qed.
+(* the oracle rejects the trace of a destructor that also forgets the handler to reinstate *)
+Example C19_nonvacuous_lifetime_oracle :
+  prop_install_b [Create 1; Install 1; Destroy 1; Restore]
+                 [(Default, RDefault); (Logger, RLogger 1); (Logger, RNone); (Logger, RNone)] = false
+  /\ prop_install_b [Create 1; Install 1; Destroy 1; Restore]
+                 [(Default, RDefault); (Logger, RLogger 1); (Logger, RNone); (Default, RDefault)] = true.
+Proof. vm_compute. split; reflexivity. Qed.
+(* two old lines of day 100, RotationDaily only, messages on days 103 103 104: the old lines go to
+   <base>.<day 100>.1, day 103 to <base>.<day 103>.1, day 104 stays in the active file; the plain
+   FileSink (all five lines in one file) is rejected by the oracle *)
+Example C19_nonvacuous_daily :
+  let a := {| o_path := qs "app.log"; o_size := 0; o_count := 0; o_startup := false; o_daily := true;
+              o_compress := false; o_async := false |} in
+  lay_obs (layout (ol_fparams src_oneline a) 2 100 [103; 103; 104]) = ([(100, 1%nat, 2%nat); (103, 1%nat, 2%nat)], 1%nat)
+  /\ prop_layout_b (ol_want a) 2 100 [103; 103; 104] ([], 5%nat) = false
+  /\ prop_layout_b (ol_want a) 2 100 [103; 103; 104] ([(100, 1%nat, 2%nat); (103, 1%nat, 2%nat)], 1%nat) = true.
+Proof. vm_compute. repeat split; reflexivity. Qed.
